@@ -1679,23 +1679,27 @@ class Builder:
 
         if not loop_register_already_activated:
             self._mem_mgr.add_active_register(loop_register)
-        # evaluate body (will add pending commands)
-        body(
-            self._connection,
-            RegFuture(connection=self._connection, reg=loop_register),
-        )
-        body_commands = self.subrt_pop_all_pending_commands()
+        try:
+            # evaluate body (will add pending commands)
+            body(
+                self._connection,
+                RegFuture(connection=self._connection, reg=loop_register),
+            )
+        finally:
+            # (also when the body raises, like the context form: the commands issued
+            # before the loop are kept and the loop register is given back)
+            body_commands = self.subrt_pop_all_pending_commands()
 
-        self._build_cmds_loop(
-            pre_commands=pre_commands,
-            body_commands=body_commands,
-            stop=stop,
-            start=start,
-            step=step,
-            loop_register=loop_register,
-        )
-        if not loop_register_already_activated:
-            self._mem_mgr.remove_active_register(loop_register)
+            self._build_cmds_loop(
+                pre_commands=pre_commands,
+                body_commands=body_commands,
+                stop=stop,
+                start=start,
+                step=step,
+                loop_register=loop_register,
+            )
+            if not loop_register_already_activated:
+                self._mem_mgr.remove_active_register(loop_register)
 
     def _build_cmds_loop(
         self,
@@ -1787,20 +1791,23 @@ class Builder:
         """Used to build effective if-statements"""
         current_commands = self.subrt_pop_all_pending_commands()
 
-        # evaluate body (will add pending commands)
-        body(self._connection)
+        try:
+            # evaluate body (will add pending commands)
+            body(self._connection)
+        finally:
+            # (also when the body raises, like the context form: the commands issued
+            # before the if-statement are kept)
+            # get those commands
+            body_commands = self.subrt_pop_all_pending_commands()
 
-        # get those commands
-        body_commands = self.subrt_pop_all_pending_commands()
-
-        # combine existing commands with body commands and branch instructions
-        self._build_cmds_condition(
-            pre_commands=current_commands,
-            body_commands=body_commands,
-            condition=condition,
-            op0=op0,
-            op1=op1,
-        )
+            # combine existing commands with body commands and branch instructions
+            self._build_cmds_condition(
+                pre_commands=current_commands,
+                body_commands=body_commands,
+                condition=condition,
+                op0=op0,
+                op1=op1,
+            )
 
     def _build_cmds_condition(
         self,
@@ -2271,22 +2278,33 @@ class Builder:
         self, max_iterations: int
     ) -> Iterator[SdkLoopUntilContext]:
         """Build commands for a 'loop_until' context and return the context object."""
+        id = self._next_context_id
+        context = SdkLoopUntilContext(
+            id=id, builder=self, max_iterations=max_iterations
+        )
+        self._next_context_id += 1
+        loop_register = self._loop_until_context_enter(id)
+        reg_future = RegFuture(self._connection, loop_register)
+        context.set_loop_register(reg_future)
         try:
-            id = self._next_context_id
-            context = SdkLoopUntilContext(
-                id=id, builder=self, max_iterations=max_iterations
-            )
-            self._next_context_id += 1
-            loop_register = self._loop_until_context_enter(id)
-            reg_future = RegFuture(self._connection, loop_register)
-            context.set_loop_register(reg_future)
             yield context
-        finally:
-            assert context.exit_condition is not None
-            self._loop_until_context_exit(
-                context_id=id,
-                context=context,
-            )
+        except BaseException:
+            if context.exit_condition is None:
+                # The body raised before it set an exit condition: there is no loop to
+                # build. Keep the commands issued so far and give the loop register back.
+                body_commands = self.subrt_pop_all_pending_commands()
+                pre_commands = self._pre_context_commands.pop(id, [])
+                for reg in self._pre_context_registers.pop(id, []):
+                    self._mem_mgr.remove_active_register(reg)
+                self.subrt_add_pending_commands(pre_commands + body_commands)
+                raise
+            self._loop_until_context_exit(context_id=id, context=context)
+            raise
+        assert context.exit_condition is not None
+        self._loop_until_context_exit(
+            context_id=id,
+            context=context,
+        )
 
     @contextmanager
     def sdk_try_context(
